@@ -25,9 +25,10 @@ def cfg(n, err, status, inv, live=True):
 def _one(args):
     logging.disable(logging.CRITICAL)
     from . import serial_rec
-    stmts, acks, status, late = args
+    stmts, acks, status, late = args[:4]
+    lose = args[4] if len(args) > 4 else 0
     return serial_rec.run_direct([bytes(s) for s in stmts], [bytes(a) for a in acks],
-                                 status={int(k): [bytes(x) for x in v] for k, v in status.items()}, late_hs=late)
+                                 status={int(k): [bytes(x) for x in v] for k, v in status.items()}, late_hs=late, lose_at=lose)
 
 
 def run_all(specs, par=12):
@@ -35,19 +36,20 @@ def run_all(specs, par=12):
 
 
 def enc(spec):
-    stmts, acks, status, late = spec
+    stmts, acks, status, late = spec[:4]
     return {"stmts": [list(s) for s in stmts], "acks": [list(a) for a in acks],
-            "status": {str(k): [list(x) for x in v] for k, v in status.items()}, "late": late}
+            "status": {str(k): [list(x) for x in v] for k, v in status.items()}, "late": late,
+            "lose": spec[4] if len(spec) > 4 else 0}
 
 
 def dec(d):
     return ([bytes(s) for s in d["stmts"]], [bytes(a) for a in d["acks"]],
-            {int(k): [bytes(x) for x in v] for k, v in d["status"].items()}, d["late"])
+            {int(k): [bytes(x) for x in v] for k, v in d["status"].items()}, d["late"], d.get("lose", 0))
 
 
 class P(flow.Plan):
     pid = "C16"
-    clauses = ["C16_Order", "C16_Sync", "C16_Error", "C16_Returns", "C16_Disconnect", "H_Device"]
+    clauses = ["C16_Order", "C16_Sync", "C16_Error", "C16_Returns", "C16_Disconnect", "C16_Loss", "H_Device"]
     trace_module = "DirectWriteTrace"
     shards = 8
     assumptions = ["the device answers every received line with exactly one acknowledgement, in order (scripted serial port)",
@@ -93,7 +95,8 @@ class P(flow.Plan):
                 stmts[rng.randrange(k)] = NONASCII     # what the builder emits for a comment with non-ASCII text
             acks = [rng.choice(ERRS) if rng.random() < 0.25 else rng.choice([b"ok\n", b"ok T:20.0 /0.0\n", b"OK\n"]) for _ in range(k)]
             status = {j + 1: [rng.choice(STATUS) for _ in range(rng.randint(1, 2))] for j in range(k) if rng.random() < 0.3}
-            specs.append((stmts, acks, status, rng.random() < 0.15))
+            lose = rng.randint(1, k) if i % 5 == 4 else 0          # connection loss while statement `lose` is in flight
+            specs.append((stmts, acks, status, rng.random() < 0.15 and not lose, lose))
         traces = run_all(specs)
         for t in traces:
             t["meta"]["driver"] = "random"
@@ -128,7 +131,13 @@ class P(flow.Plan):
 
         def swap(t, i, j):
             t["ev"][i], t["ev"][j] = t["ev"][j], t["ev"][i]
+        lossy = run_all([([b"G1 X1\n", b"M114\n"], [b"ok\n", b"ok\n"], {}, False, 2)], par=1)[0]
+        lossy = copy.deepcopy(lossy)
+        lr = [i for i, e in enumerate(lossy["ev"]) if e["k"] == "ret"][-1]
+        lossy["ev"][lr]["res"] = "ok"
+        lossy["meta"]["control"] = {"clause": "C16_Loss", "step": lr + 1}
         return [
+            lossy,
             mut("C16_Order", txs[1] + 1, lambda t: t["ev"][txs[1]].__setitem__("text", list(b"M115\n"))),
             mut("C16_Sync", 0, lambda t: swap(t, rets[0], rets[0] - 1)),      # write(1) returned before its ok was handed over
             mut("C16_Error", rets[1] + 1, lambda t: t["ev"][rets[1]].__setitem__("res", "ok")),
